@@ -37,8 +37,8 @@ def set_open(keys) -> None:
 PLAIN = ["foo", "Bar", "baz_1", "a1", "UPPER", "word", "note", "about", "the", "n0", "Zed", "q_q", "alpha", "file",
          "none", "c", "S", "W"]
 # six digits that are NOT a calendar date: plain text even as the very first word of a body
-FIRST_ODD = ["123456", "999999", "241332", "000000"]
-LOOKALIKE = ["o", "x", "P5", "P0", "2024-01-01", "2031-12-31", "1234", "0930", "240101", "991231", "240101#zz",
+FIRST_ODD = ["123456", "999999", "241332", "000000", "2024-02-30", "2023-13-01", "2024-03-32"]
+LOOKALIKE = ["o", "x", "P5", "P0", "2024-01-01", "2031-12-31", "2024-02-30", "1234", "0930", "240101", "991231", "240101#zz",
              "000229#0A", "240305#abc"]
 SYMBOLS = ["--", "*", "&", "=>", "...", "|", "~", "<", ">", "=", "(", ")", "{x}", "`"]
 WRAP_PRE = ["", "", "", "("]
